@@ -205,7 +205,9 @@ yield1:
 		if (++ctx->tot_lno >= MAX_NLINES) {
 			YIELD(3);
 		}
-		YIELD(4);
+		/* the lines of this window are handed out from the first one,
+		 * whatever the reader's position in the window before */
+		YIELD(3);
 	} else if (UNLIKELY(nrd <= 0 && off == ctx->buf)) {
 		/* special case, we worked our arses off and nothing's
 		 * in the pipe line so just fuck off here */
@@ -257,7 +259,6 @@ yield3:
 	/* need clean up, something like unread(),
 	 * in particular leave a note in __ctx with the left over offset */
 	ctx->cur_lno = 0;
-yield4:
 	ctx->off = off - ctx->buf;
 	ctx->bno = bno - ctx->buf;
 #undef YIELD
